@@ -109,8 +109,9 @@ def obligations():
                  ex_fetch, 'arbitrary table state, arbitrary clock', cuts=CUTS, timeout=1500, mem_gb=10, min_covers=2, weight=4),
     ]
     c02 = {o.ob_id: o for o in C02.obligations()}
-    for k, new in [('O2.3-blocks-proof-gates', 'O16.2-header-store-gates'), ('O2.4-txs-proof-gates', 'O16.2-tx-store-gates')]:
+    for k, new in [('O2.3-blocks-proof-gates', 'O16.2-header-store-gates'), ('O2.4-txs-proof-gates', 'O16.2-tx-store-gates'), ('O2.6-body-semantic', 'O16.7-body-committed')]:
         o = c02[k]; o.ob_id = new; obs.append(o)
+    obs[-1].desc = '[a transaction is reported as committed in a block only if that block\'s transactions root commits to it: a downloaded body is indexed only if its header commits to it] ' + obs[-1].desc
     import C03
     obs.append(C03.fetched_rows('O16.6-fetched-rows'))
     return obs
